@@ -21,9 +21,11 @@ def _quad(seed, k):
     return A, b, c
 
 
-def _p0(seed, k, eps, zmask):
+def _p0(seed, k, eps, zmask, integer=False):
     """parameters: regular, exactly zero (zmask 1), tiny |p|*eps < 1e-6 (zmask 2), negative regular (zmask 3)"""
     rs = np.random.RandomState(seed + 77)
+    if integer:      # integer-typed parameter vectors are legal input: [2, 3, 1]
+        return [float({1: 0, 3: -rs.randint(1, 4)}.get(zmask[j % len(zmask)], rs.randint(1, 5))) for j in range(k)]
     p = []
     for j in range(k):
         z = zmask[j % len(zmask)]
@@ -36,6 +38,13 @@ def _p0(seed, k, eps, zmask):
         else:
             p.append(rs.uniform(0.3, 3.0))
     return p
+
+
+def _contain(p0, container):
+    if container in ('intlist', 'intarray'):
+        ip = [int(v) for v in p0]
+        return ip if container == 'intlist' else np.array(ip)
+    return {'list': list(p0), 'tuple': tuple(p0), 'array': np.array(p0)}[container]
 
 
 def _steps(p0, eps):
@@ -58,9 +67,9 @@ def stencil_hess(seed, k, eps, zmask, container='list'):
     """get_hess on a random quadratic: exact up to round-off"""
     from dadi import Godambe
     A, b, c = _quad(seed, k)
-    p0 = _p0(seed, k, eps, zmask)
+    p0 = _p0(seed, k, eps, zmask, container.startswith('int'))
     f = lambda p: float(0.5 * np.dot(p, np.dot(A, p)) + np.dot(b, p) + c)
-    arg = {'list': list(p0), 'tuple': tuple(p0), 'array': np.array(p0)}[container]
+    arg = _contain(p0, container)
     H = Godambe.get_hess(f, arg, eps)
     h, one = _steps(p0, eps)
     # round-off: every f value carries ~eps_mach*|f|; second differences divide by h_i*h_j
@@ -79,13 +88,13 @@ def stencil_grad(seed, k, eps, zmask, container='list'):
     one-sided ones is differentiated exactly by both."""
     from dadi import Godambe
     A, b, c = _quad(seed, k)
-    p0 = _p0(seed, k, eps, zmask)
+    p0 = _p0(seed, k, eps, zmask, container.startswith('int'))
     h, one = _steps(p0, eps)
     for j in range(k):
         if one[j]:
             A[j, j] = 0.0          # linear along one-sided coordinates (cross terms stay: they are linear in p_j)
     f = lambda p: float(0.5 * np.dot(p, np.dot(A, p)) + np.dot(b, p) + c)
-    arg = {'list': list(p0), 'tuple': tuple(p0), 'array': np.array(p0)}[container]
+    arg = _contain(p0, container)
     g = Godambe.get_grad(f, arg, eps)
     want = np.dot(A, p0) + b
     span = np.abs(np.array(p0)) + 2 * np.abs(h)
@@ -215,7 +224,8 @@ def _gate(R1, R2, Rc, eps, conds, central, R4=None):
     return ok, out
 
 
-def closed_form(fn, k, seed, ns, p0, multinom, eps, dseed, nboot, log=False, nested=None, full=None, adjusts=None, perm=None, pts=(10,)):
+def closed_form(fn, k, seed, ns, p0, multinom, eps, dseed, nboot, log=False, nested=None, full=None, adjusts=None, perm=None, pts=(10,),
+                pcont='list', dmask=0):
     """fn in FIM, GIM, LRT, Wald, score.  Calls dadi at eps and 2*eps, compares with the closed form."""
     import dadi
     from dadi import Godambe
@@ -225,6 +235,11 @@ def closed_form(fn, k, seed, ns, p0, multinom, eps, dseed, nboot, log=False, nes
     model = lin.M(p0)
     rs = np.random.RandomState(dseed)
     data = dadi.Spectrum(model * (1 + 0.03 * rs.standard_normal(model.shape)).clip(0.3, 3) * 1.0)
+    if dmask:
+        # data with masked entries beyond the corners (e.g. untrusted singletons): every sum runs over the jointly unmasked entries
+        flat = [i for i in range(1, data.size - 1)]
+        for i in [flat[(7 * dseed + 3 * j) % len(flat)] for j in range(dmask)]:
+            data.mask.flat[i] = True
     boots = [dadi.Spectrum(model * (1 + 0.25 * np.random.RandomState(dseed * 100 + b).standard_normal(model.shape)).clip(0.2, 4))
              for b in range(nboot)]
     if perm:
@@ -234,26 +249,36 @@ def closed_form(fn, k, seed, ns, p0, multinom, eps, dseed, nboot, log=False, nes
     adj_call = None if not adjusts else ([adjusts[i] for i in perm] if perm else list(adjusts))
     pts = list(pts)
 
+    def P0():
+        return _contain(p0, pcont)
+    held = []
+
     def call(e):
+        pc = P0()
+        held.append((pc, _contain(p0, pcont)))
         if fn == 'FIM':
-            u, Hh = Godambe.FIM_uncert(func, pts, list(p0), data, log=log, multinom=multinom, eps=e, return_FIM=True)
+            u, Hh = Godambe.FIM_uncert(func, pts, pc, data, log=log, multinom=multinom, eps=e, return_FIM=True)
             return np.concatenate([np.ravel(u), np.ravel(Hh)])
         if fn == 'GIM':
-            u, G, Hh = Godambe.GIM_uncert(func, pts, boots_call, list(p0), data, log=log, multinom=multinom, eps=e, return_GIM=True,
+            u, G, Hh = Godambe.GIM_uncert(func, pts, boots_call, pc, data, log=log, multinom=multinom, eps=e, return_GIM=True,
                                           boot_theta_adjusts=adj_call)
             return np.concatenate([np.ravel(u), np.ravel(G), np.ravel(Hh)])
         if fn == 'LRT':
-            return np.array([Godambe.LRT_adjust(func, pts, boots_call, list(p0), data, list(nested), multinom=multinom, eps=e,
+            return np.array([Godambe.LRT_adjust(func, pts, boots_call, pc, data, list(nested), multinom=multinom, eps=e,
                                                 boot_theta_adjusts=adj_call)])
         if fn == 'Wald':
-            return np.array(Godambe.Wald_stat(func, pts, boots_call, list(p0), data, list(nested), list(full), multinom=multinom, eps=e,
+            return np.array(Godambe.Wald_stat(func, pts, boots_call, pc, data, list(nested), list(full), multinom=multinom, eps=e,
                                               adj_and_org=True))
         if fn == 'score':
-            return np.array(Godambe.score_stat(func, pts, boots_call, list(p0), data, list(nested), multinom=multinom, eps=e, adj_and_org=True))
+            return np.array(Godambe.score_stat(func, pts, boots_call, pc, data, list(nested), multinom=multinom, eps=e, adj_and_org=True))
         raise KeyError(fn)
     R1 = call(eps)
     R2 = call(2 * eps)
     R4 = call(4 * eps)
+    for pc, orig in held:
+        if not np.array_equal(np.asarray(pc), np.asarray(orig)):
+            return {'ok': False, 'what': 'closed form %s: the caller\'s parameter vector was modified in place' % fn, 'p0': list(p0),
+                    'now': np.asarray(pc).tolist(), 'container': pcont}
     H, J, cU, q = closed_all(lin, p0, data, boots if fn != 'FIM' else [], multinom, log, nested if fn in ('LRT', 'Wald', 'score') else None, adjusts)
     conds = float(np.linalg.cond(H))
     if fn != 'FIM':
@@ -364,7 +389,7 @@ def chi2(xs, weights, as_array):
     want = np.zeros_like(xa)
     for d, w in enumerate(weights):
         if d == 0:
-            want += w * (xa <= 0)        # chi2 with 0 d.o.f. is a point mass at 0: P(X > x) = 0 for x > 0
+            want += w * (xa <= 0)        # chi2 with 0 d.o.f. is a point mass at 0: P(X > x) = 0 for x > 0, 1 for x < 0
         else:
             want += w * scipy.stats.chi2.sf(xa, d)
     # dadi's convention at x == 0 (tail probability 1 there) is accepted either way: only x > 0 are drawn
